@@ -156,6 +156,18 @@ impl Drop for AuthorityLockGuard {
     fn drop(&mut self) {
         #[cfg(feature = "verif")]
         rip_kernel::verif::point("auth.drop.begin", "");
+        // Only release what is ours: if the lock on disk no longer carries this guard's record,
+        // the files belong to another authority.
+        let data_dir = self.lock_path.parent().and_then(Path::parent);
+        let still_ours = match data_dir.map(read_authority_lock_record) {
+            Some(Ok(Some(record))) => {
+                record.pid == self.record.pid && record.started_at_ms == self.record.started_at_ms
+            }
+            _ => false,
+        };
+        if !still_ours {
+            return;
+        }
         let _ = fs::remove_file(&self.meta_path);
         #[cfg(feature = "verif")]
         rip_kernel::verif::point("auth.drop.meta", "");
